@@ -92,6 +92,14 @@ def run(chk):
         chk.record_tlc("Validate/strict_kinds(Dev=FALSE)", res)
         chk.require_tlc_ok("strict_kinds", res)
 
+    # the drawn representation is closed for every ACCEPTED graph (Inv_Repr in every instance above); for classes
+    # validate() rejects it is not (an accepted base StopEvent next to the workflow's own stop class): TLC must say so
+    res = tlc.run(SPECS / "config/MC_Validate.tla", SPECS / "config/MC_Validate_repr_sanity.cfg",
+                  workdir=chk.work / "repr_sanity", workers=1, deadlock=False, jvm_opts=_obslib.FAST_JVM)
+    chk.record_tlc("Validate/repr_sanity", res, count=False)
+    if res.violated != "Inv_ReprAnyClass":
+        raise Machinery("sanity run repr_sanity: expected a violation of Inv_ReprAnyClass, got %s" % (res.violated or res.error))
+
     insts, allvecs = {}, []
     rng = random.Random(chk.seed)
     sampled = False
@@ -138,6 +146,7 @@ def run(chk):
     sigs = set()
     drift = Counter()
     n_conf = 0
+    repr_count = Counter()
     viol_seen = Counter()
     chunks = [traces[c0:c0 + CHUNK] for c0 in range(0, len(traces), CHUNK)]
     from concurrent.futures import ThreadPoolExecutor
@@ -154,7 +163,11 @@ def run(chk):
         verdicts, ores = observed[k]
         chk.record_tlc("obs_%d" % k, ores, count=False)
         for i, tr in enumerate(chunk, 1):
-            clause, _l, feature, conf, why, hitl = verdicts[i]
+            clause, _l, feature, conf, why, hitl, rconf = verdicts[i]
+            repr_count[rconf] += 1
+            if rconf not in ("ok", "skipped") and repr_count[rconf] <= 3:
+                chk.note("conformance drift (representation, %s): graph %s -> nodes %s edges %s" % (
+                    rconf, drv.steps_of(insts[tr["inst"]], tr["reg"], tr["hs"]), tr["repr"]["nodes"], tr["repr"]["edges"]))
             clause_count[clause] += 1
             why_count[why] += 1
             fam_count[tr["family"]] += 1
@@ -207,7 +220,7 @@ def run(chk):
             t["family"] for t in traces if t["where"] == "define"))
     chk.add(evaluations=len(traces), distinct_nontrivial=len(sigs), traces_validated_against_impl=n_conf,
             by_oracle_clause=dict(why_count), by_raised_family=dict(fam_count), verdicts=dict(clause_count),
-            conformance_drift=dict(drift))
+            conformance_drift=dict(drift), representation_conformance=dict(repr_count))
     chk.exhaustive = not sampled
     chk.assumptions += [
         "graphs are bounded as in the MC_Validate_*.cfg instances; event nodes are exact classes",
